@@ -223,6 +223,21 @@ def run(ctx, selftest=False):
     progs = progs + sampled
     eres, tres = run_pairs(ctx, drv, progs, thorough, 'p')
 
+    # the knob platforms are assembled in the harness (platform.go mirrors timingconfig.Builder.Build): with no effective knob
+    # the assembled platform must reproduce the stock platform's simulated times exactly, otherwise the mirror has drifted
+    for gpu in (['r9nano', 'mi300a'] if thorough else ['r9nano']):
+        stock = next((t for t in tres if t['case']['c']['gpu'] == gpu and not t['case']['knobs'] and t['obs']
+                      and t['obs'].get('commands') and not t['obs'].get('hang') and not t['obs'].get('run_panic')), None)
+        if stock is None:
+            continue
+        twin = c01.run_case(ctx, drv, 'twin_' + gpu, stock['case'], extras('t') + ['-knobs', 'freq=0'], verify=False)
+        a, b = stock['obs'], twin['obs'] or {}
+        if a.get('run_end_ps') != b.get('run_end_ps') or a.get('commands') != b.get('commands'):
+            raise vlib.Infra('harness platform (platform.go) no longer equals the stock %s platform: end %s vs %s' % (
+                gpu, a.get('run_end_ps'), b.get('run_end_ps')))
+        ctx.cov.setdefault('harness_platform_equals_stock', {})[gpu] = a.get('run_end_ps')
+        shutil.rmtree(twin['dir'], ignore_errors=True)
+
     compared, nontrivial, diffs = 0, set(), 0
     trace_pool = []
     for idx, t in enumerate(tres):
